@@ -151,6 +151,10 @@ func (meta *DefinitionMeta) UnmarshalYAML(value *yaml.Node) error {
 }
 
 func (rec *RecordDefinition) UnmarshalYAML(value *yaml.Node) error {
+	if value.Kind == yaml.SequenceNode {
+		return parseError(value, "a !record must be specified as a map with field `fields` and optionally `computedFields`")
+	}
+
 	parsedFields := false
 	for i := 0; i < len(value.Content); i += 2 {
 		k := value.Content[i]
@@ -451,6 +455,10 @@ func convertPattern(pat *parser.Pattern, node NodeMeta) Pattern {
 }
 
 func (protocol *ProtocolDefinition) UnmarshalYAML(value *yaml.Node) error {
+	if value.Kind == yaml.SequenceNode {
+		return parseError(value, "a !protocol must be specified as a map with field `sequence`")
+	}
+
 	parsedSequence := false
 	for i := 0; i < len(value.Content); i += 2 {
 		k := value.Content[i]
@@ -587,6 +595,10 @@ func UnmarshalArrayYAML(value *yaml.Node) (*GeneralizedType, error) {
 
 				if err := v.DecodeWithOptions(&ndims, yaml.DecodeOptions{KnownFields: true}); err != nil {
 					return nil, err
+				}
+
+				if ndims < 0 {
+					return nil, parseError(v, "the number of array dimensions cannot be negative")
 				}
 
 				dims := make(ArrayDimensions, ndims)
@@ -816,6 +828,10 @@ func UnmarshalTypeCases(value *yaml.Node) (TypeCases, error) {
 }
 
 func UnmarshalGenericNode(value *yaml.Node) (Type, error) {
+	if value.Kind == yaml.SequenceNode {
+		return nil, parseError(value, "a !generic must be specified as a map with fields `name` and `args`")
+	}
+
 	simpleType := &SimpleType{NodeMeta: createNodeMeta(value)}
 
 	for i := 0; i < len(value.Content); i += 2 {
@@ -831,6 +847,9 @@ func UnmarshalGenericNode(value *yaml.Node) (Type, error) {
 				if err != nil {
 					return nil, err
 				}
+				if typeArg == nil {
+					return nil, parseError(v, "a type argument of a !generic type cannot be null")
+				}
 
 				simpleType.TypeArguments = append(simpleType.TypeArguments, typeArg)
 			} else {
@@ -838,6 +857,9 @@ func UnmarshalGenericNode(value *yaml.Node) (Type, error) {
 					typeArg, err := UnmarshalTypeYAML(c)
 					if err != nil {
 						return nil, err
+					}
+					if typeArg == nil {
+						return nil, parseError(c, "a type argument of a !generic type cannot be null")
 					}
 
 					simpleType.TypeArguments = append(simpleType.TypeArguments, typeArg)
@@ -881,6 +903,10 @@ func (dimension *ArrayDimension) UnmarshalYAML(value *yaml.Node) error {
 }
 
 func (enum *EnumDefinition) UnmarshalYAML(value *yaml.Node) error {
+	if value.Kind == yaml.SequenceNode {
+		return parseError(value, "an !enum or !flags must be specified as a map with field `values` and optionally `base`")
+	}
+
 	for i := 0; i < len(value.Content); i += 2 {
 		k := value.Content[i]
 		v := value.Content[i+1]
